@@ -478,9 +478,15 @@ def outOf : Except Err Out → Out
   | .ok o => o
   | .error e => .err e
 
+/-- the retried attempt of `get_opts` if the source did *not* evaluate the preconditions again on the
+re-resolved document: the conditions were answered (and stripped) against the first document -/
+def getAttemptNoCheck (be : Backend) (k : Path) (d : Doc) (o : GetOpts) : Attempt Out :=
+  getAttempt be k d { range := o.range, head := o.head }
+
 /-- the read loop shared by `get_opts` and `get_ranges`: resolve, try, re-resolve once on a stale
-pointer. -/
-def readLoop (w : W) (k : Path) (attempt : Backend → Doc → Attempt Out) : W × Out :=
+pointer and try again (`retry`: the same attempt, preconditions included, unless the generated
+`getRecheckInRetry` says the source skips them). -/
+def readLoop (w : W) (k : Path) (attempt retry : Backend → Doc → Attempt Out) : W × Out :=
   match getMeta w k with
   | (.error e, w1) => (w1, .err e)
   | (.ok d, w1) =>
@@ -490,7 +496,7 @@ def readLoop (w : W) (k : Path) (attempt : Backend → Doc → Attempt Out) : W 
           match refreshMeta w1 k with
           | (.error e, w2) => (w2, .err e)
           | (.ok d2, w2) =>
-              match attempt w2.be d2 with
+              match retry w2.be d2 with
               | .done r => (w2, outOf r)
               | .stale => (w2, .err .notFound)
 
@@ -637,9 +643,12 @@ def copySteps (w : W) (now : Nat) (src dst : Path) (create : Bool) : List Step :
 def wStep (w : W) (now : Nat) : Call → W × Out
   | .put k mode data => runPlan w now (planWrite w (Gen.SidecarOrder.putOrder w.flavor) (Gen.SidecarOrder.putTagSeeded w.flavor) now k mode data) 1
   | .mput k parts => runPlan w now (planWrite w (Gen.SidecarOrder.completeOrder w.flavor) (Gen.SidecarOrder.completeTagSeeded w.flavor) now k .overwrite (concatParts parts)) 1
-  | .get k o => readLoop w k (fun be d => getAttempt be k d o)
+  | .get k o =>
+      readLoop w k (fun be d => getAttempt be k d o)
+        (fun be d => if Gen.SidecarOrder.getRecheckInRetry w.flavor then getAttempt be k d o else getAttemptNoCheck be k d o)
   | .getRanges k rs =>
-      if rs.isEmpty then (w, .ranges []) else readLoop w k (fun be d => rangesAttempt be k d rs)
+      if rs.isEmpty then (w, .ranges [])
+      else readLoop w k (fun be d => rangesAttempt be k d rs) (fun be d => rangesAttempt be k d rs)
   | .delete k => runPlan w now (planDelete w w.cache w.be k) 0
   | .copy src dst create =>
       match resolveSource w src with
